@@ -151,6 +151,13 @@ Proof.
   - right. exists n, u, t, a, p. apply evolves_refl.
 Qed.
 
+Lemma evolves_fold_left {A} (f : sub -> A -> sub) (l : list A) :
+  (forall x a, evolves x (f x a)) -> forall x, evolves x (fold_left f l x).
+Proof.
+  intros H. induction l as [|a l IH]; intros x; simpl; [apply evolves_refl|].
+  eapply evolves_trans; [apply H|apply IH].
+Qed.
+
 (* handle: the unsettled effect *)
 Lemma handle_subs_step sv r :
   subs_step (sv_subs sv) (sv_subs (fst (fst (handle sv r)))).
@@ -166,6 +173,11 @@ Proof.
     try apply del_sub_step; try apply app_new_step.
   - (* publish *) apply (map_cond_step (fun s0 => existsb (N.eqb (s_uid s0)) (map snd (t_subs t))) (sub_post _)).
     intros. apply evolves_post.
+  - (* push pass *) apply upd_sub_step. intros s1.
+    eapply evolves_trans; [apply (evolves_pull 1000 (sv_now sv) s1)|].
+    apply evolves_fold_left. intros x [l0 o]. cbn [fst snd].
+    destruct o; try apply evolves_refl; try apply evolves_modify.
+    match goal with |- context [if ?b then _ else _] => destruct b end; [apply evolves_ack|apply evolves_modify].
 Qed.
 
 Lemma settle_subs_step touched sv : subs_step (sv_subs sv) (sv_subs (settle touched sv)).
